@@ -60,31 +60,8 @@ def run(repo, res):
     # list_packages, interpreted on a modelled file system: it must walk the same roots in the same table of suffixes
     # (get_module's walk is decided by R2 below)
     lp = repo.method(PROJECT, 'Project', 'list_packages')
-    itl = Interp(repo, facts)
-    itl.module_env(PROJECT)['SUFFIXES'] = ['.py', '.so']
-    itl.sys_path = ['<P1>']
-    itl.sys_modules = {'pkg.loaded': 1, 'pkg.loaded.deep': 1, 'pkgother.x': 1, 'other': 1, 'pkg': 1}
-    itl.fs_dirs = {'<S1>/pkg': ['a.py', '__init__.py', 'sub', 'data', 'c.txt', 'b.so', 'a.so'], '<P1>/pkg': ['z.py'],
-                   '<S1>': ['top.py', 'pkg'], '<S2>': [], '<P1>': ['pkg', 'lib.so']}
-    itl.fs = {'<S1>/pkg/sub/__init__.py', '<S1>/pkg/__init__.py', '<P1>/pkg/__init__.py'}
-    itl.reset_path([])
-    for order in ('fwd', 'rev'):
-        itl.set_order = order
-        for root, want in (('pkg', {'a', 'b', 'sub', 'z', 'loaded'}), ('', {'pkg', 'pkgother', 'other', 'top', 'lib'})):
-            try:
-                p = itl.instantiate(proj, [['<S1>', '<S2>']], {})
-                got = itl.call(itl.getattr(p, 'list_packages'), [root], {})
-                got = set(itl.iterate(got))
-                exc = None
-            except InterpRaise as e:
-                got, exc = None, e
-            except Uninterpretable as e:
-                raise AnalysisError('list_packages is outside the interpretable subset: %s' % e)
-            res.check('C07-R1', 'list_packages(%r) walks sources, sys.path and sys.modules [%s]' % (root, order), got == want, PROJECT,
-                      lp.lineno, 'on the modelled file system list_packages(%r) must give %s (modules of every root with a '
-                      'suffix of the shared table, packages with __init__.py, loaded modules); got %s' % (root, sorted(want),
-                                                                                                        exc or sorted(got)),
-                      sample='list_packages(%r) = %s' % (root, sorted(want)))
+    from .. import api_model as _am
+    _am.apply(res, _am.list_packages_model(repo), {'lp': 'C07-R1'}, PROJECT, lp.lineno)
 
     # ---- R2 / R4 abstract interpretation of get_module -----------------------------------------------
     it = Interp(repo, facts)
@@ -233,9 +210,20 @@ def run(repo, res):
               sample='%d split/join results over levels 0..4 keep the level and the last component' % nsp)
     res.count('dotted_name_cases', nsp, floor=25)
 
+    # the package-name cache belongs to Project: what norm_package stores is what it computed from the directory structure
+    from ..core import private_state_accesses
+    priv, outside = private_state_accesses(repo, facts, 'Project')
+    res.count('project_private_tables', len(priv), floor=3)
+    for attr, rel, line, qual in outside:
+        if 'norm' in attr:
+            res.check('C07-R5', '%s touched in %s' % (attr, qual), False, rel, line,
+                      'the package-name cache of Project is read or written outside Project (in %s): norm_package trusts every entry '
+                      'of it, an entry it did not compute itself redirects every relative import from that directory' % qual)
+    res.ob('C07-R5', 'package-name cache owned by Project', not any('norm' in a for a, _r, _l, _q in outside),
+           sample='%s accessed only inside Project' % ', '.join(p for p in priv if 'norm' in p))
     # the relative level handed to norm_package by completion on a half-typed `from ...` line (assist model)
     from .. import api_model
-    api_model.apply(res, [r for r in api_model.assist_model(repo) if r[1].startswith('package whose children')], {'pkg': 'C07-R6'},
+    api_model.apply(res, [r for r in api_model.assist_model(repo) if r[1].startswith('package whose children') or 'proposes the packages of' in r[1]], {'pkg': 'C07-R6'},
                     'supp/assistant.py', 0)
 
     # ---- R3 sibling agreement ------------------------------------------------------------------------
